@@ -78,8 +78,28 @@ def resolve_delay(d_steps, dt, tol=0.0):
 
 
 def kd(case, d_steps):
-    k, off = resolve_delay(d_steps, case["dt"])
+    # the trainer's interp_tolerance only matters where the trainer itself selects at the delay (delayed mode); the
+    # synapse's own selection (delay-frozen mode, MSTDPET) uses the synapse's tolerance (0)
+    tol = float(case.get("tol", 0.0)) if (case["delayed"] and case["trainer"] != "MSTDPET") else 0.0
+    k, off = resolve_delay(d_steps, case["dt"], tol)
     return {"k": k, "off": off}
+
+
+def effective_cases(g):
+    """a group case (one trainer object, several cells registered with keyword overrides) -> per cell the single-cell
+    case with the hyperparameters IN EFFECT for that cell (override if given, else the trainer's default)"""
+    d = g["defaults"]
+    out = []
+    for cc in g["cells"]:
+        ov = cc.get("override", {})
+        e = {k: v for k, v in cc.items() if k != "override"}
+        e["trainer"] = g["trainer"]
+        e["hp"] = dict(d["hp"], **ov.get("hp", {}))
+        for key in ("mode", "delayed", "reduction", "tol"):
+            e[key] = ov[key] if key in ov else d.get(key, 0.0 if key == "tol" else None)
+        e["signal"], e["scale"] = g.get("signal"), g.get("scale", 1.0)
+        out.append(e)
+    return out
 
 
 def column(arr, j):
@@ -219,6 +239,74 @@ def gen_offgrid(rng: random.Random):
     if case["signal"] is not None and isinstance(case["signal"][0], list):
         case["reduction"] = rng.choice([None, "sum"])
     return case
+
+
+def gen_group(rng: random.Random):
+    """ONE trainer object driving 2-3 cells (own layers): the first registered without overrides, the others with
+    keyword overrides of a random subset of everything register_cell accepts - learning rates (mostly with sign flips
+    against the trainer's defaults), time constants, delayed, trace_mode, batch_reduction, interp_tolerance, inplace"""
+    tr = rng.choice(TRAINERS)
+    sp, sq = rng.choice(SIGNS)
+    dt = rng.choice([1.0, 0.5, 1.3])
+    B, T = rng.randint(1, 2), rng.randint(2, 6)
+    defaults = {"hp": default_hp(sp, sq, rng), "mode": rng.choice(MODES), "delayed": rng.random() < 0.5,
+                "reduction": rng.choice([None, "sum", "mean"]), "tol": 0.0}
+    g = {"kind": "group", "trainer": tr, "defaults": defaults, "cells": [], "signal": None, "scale": 1.0}
+    ncell = rng.randint(2, 3)
+    for j in range(ncell):
+        n_in, n_out = rng.randint(1, 2), rng.randint(1, 2)
+        kmax = rng.choice([None, 1, 2])
+        cc = {"dt": dt, "conn": "dense", "n_in": n_in, "n_out": n_out, "B": B, "kmax": kmax, "delays": None}
+        if kmax is not None:
+            offg = rng.random() < 0.25
+            cc["delays"] = [[(rng.randint(1, kmax) - rng.choice([0.25, 0.5])) if (offg and rng.random() < 0.6)
+                             else rng.randint(0, kmax) for _ in range(n_in)] for _ in range(n_out)]
+        p = rng.choice([0.4, 0.7])
+        cc["pre"] = [[[int(rng.random() < p) for _ in range(n_in)] for _ in range(B)] for _ in range(T)]
+        cc["post"] = [[[int(rng.random() < p) for _ in range(n_out)] for _ in range(B)] for _ in range(T)]
+        ov = {}
+        if j > 0:
+            hp = {}
+            if rng.random() < 0.8:      # rates, mostly with another sign mode than the trainer's defaults
+                osp, osq = rng.choice([m for m in SIGNS if m != (sp, sq)]) if rng.random() < 0.8 else (sp, sq)
+                hp["lr_post"] = osp * rng.choice([0.6, 0.25, 1.2])
+                hp["lr_pre"] = osq * rng.choice([0.5, 0.15, 0.8])
+            if rng.random() < 0.5:
+                hp["tc_post"] = rng.choice([7.3, 12.9])
+                hp["tc_pre"] = rng.choice([8.1, 14.3])
+            if rng.random() < 0.4:
+                hp["lr_post_triplet"] = rng.choice([0.3, -0.45])
+                hp["lr_pre_triplet"] = rng.choice([0.35, -0.1])
+            if rng.random() < 0.4:
+                hp["tc_post_slow"] = rng.choice([44.7, 61.3])
+                hp["tc_pre_slow"] = rng.choice([58.9, 70.1])
+            if rng.random() < 0.4:
+                hp["tc_elig"] = rng.choice([5.9, 17.3])
+            if hp:
+                ov["hp"] = hp
+            if rng.random() < 0.5:
+                ov["mode"] = [m for m in MODES if m != defaults["mode"]][0]
+            if rng.random() < 0.5:
+                ov["delayed"] = not defaults["delayed"]
+            if rng.random() < 0.5:
+                ov["reduction"] = rng.choice(["sum", "mean", "amax"])
+            if rng.random() < 0.3:
+                ov["tol"] = rng.choice([0.3, 0.6]) * dt
+            if rng.random() < 0.3:
+                ov["inplace"] = True
+        cc["override"] = ov
+        g["cells"].append(cc)
+    fake = {"trainer": tr}
+    g["signal"] = mk_signal(rng, fake, T, B)
+    if g["signal"] is not None:
+        g["scale"] = rng.choice([1.0, 0.5, -2.0])
+        if isinstance(g["signal"][0], list):
+            # per-sample signals: only the sum reduction is a per-sample statement
+            defaults["reduction"] = rng.choice([None, "sum"])
+            for cc in g["cells"]:
+                if "reduction" in cc["override"]:
+                    cc["override"]["reduction"] = "sum"
+    return g
 
 
 def gen_conv(rng: random.Random):
@@ -508,8 +596,17 @@ def run_impl_parallel(cases, jobs=8):
 
 def evaluate(cases):
     impl = run_impl_parallel(cases)
-    terms, spans = [], []
+    # units: (case reported on failure, single-cell case with the hyperparameters in effect, implementation result)
+    units = []
     for c, im in zip(cases, impl):
+        if c.get("kind") == "group":
+            effs = effective_cases(c)
+            ress = im["cells"] if im.get("ok") else [im] * len(effs)
+            units += [(c, e, r) for e, r in zip(effs, ress)]
+        else:
+            units.append((c, c, im))
+    terms, spans = [], []
+    for orig, c, im in units:
         ents = entries(c, im)
         if not ents and c["conn"] != "conv":
             ents = entries(c)
@@ -520,12 +617,17 @@ def evaluate(cases):
         spans.append((ents, sp))
     model = F.eval_terms(ID, HEADER, terms, shard=max(40, min(250, len(terms) // 48 + 1)))
     mismatches, oracle_fail = [], []
-    for c, im, (ents, sp) in zip(cases, impl, spans):
+    for j, ((orig, c, im), (ents, sp)) in enumerate(zip(units, spans)):
         mis, of = compare_case(c, im, ents, [model[a:a + n] for (a, n) in sp])
+        tag = {}
+        if orig is not c:
+            tag = {"cell_hyperparameters_in_effect": {k: c[k] for k in ("hp", "mode", "delayed", "reduction", "tol")},
+                   "cell_override": next(cc.get("override") for cc, e in zip(orig["cells"], effective_cases(orig))
+                                         if e["pre"] is c["pre"])}
         if mis is not None:
-            mismatches.append({"case": c, "detail": mis})
+            mismatches.append({"case": orig, "detail": dict(mis, **tag)})
         if of is not None:
-            oracle_fail.append({"case": c, "detail": of, "signature": signature(c, of)})
+            oracle_fail.append({"case": orig, "detail": dict(of, **tag), "signature": signature(c, of)})
     return impl, mismatches, oracle_fail, len(terms)
 
 
@@ -533,7 +635,16 @@ def _flat(x):
     return [z for y in x for z in _flat(y)] if isinstance(x, list) else [x]
 
 
+def flat_cells(cases):
+    out = []
+    for c in cases:
+        out += effective_cases(c) if c.get("kind") == "group" else [c]
+    return out
+
+
 def nontrivial(case):
+    if case.get("kind") == "group":
+        return any(nontrivial(e) for e in effective_cases(case))
     T = len(case["pre"])
     npre = sum(sum(sum(r) for r in s) for s in case["pre"])
     npost = sum(sum(sum(r) for r in s) for s in case["post"])
@@ -553,6 +664,8 @@ def run(ctx):
     cases += [gen_conv(rng) for _ in range(24 if quick else 400)]
     cases += [gen_malformed(rng) for _ in range(30 if quick else 300)]
     cases += [gen_offgrid(rng) for _ in range(60 if quick else 600)]
+    # one trainer object, several cells registered with per-cell keyword overrides (incl. a cell without overrides)
+    cases += [gen_group(rng) for _ in range(72 if quick else 900)]
     ex_len = 2 if quick else 5
     ex = exhaustive_1x1(ex_len)
     if quick:
@@ -569,6 +682,8 @@ def run(ctx):
     impl, mismatches, oracle_fail, nterms = evaluate(cases)
     if not ok_exec:
         mismatches.insert(0, {"case": None, "detail": "executable model C08/StdpExec.v does not build: " + mk_out[-1500:]})
+    cells = flat_cells(cases)
+    groups = [c for c in cases if c.get("kind") == "group"]
     return {
         "evaluations": len(cases),
         "distinct_nontrivial": len({json.dumps(c, sort_keys=True) for c in cases if nontrivial(c)}),
@@ -576,7 +691,10 @@ def run(ctx):
                  "batch <= 3, 1-9 steps, delays 0-3 steps (a third of the delayed cells with delays between two steps) in both "
                  "trainer modes or no delay, sum/mean/amax reductions, scalar "
                  "and per-sample signals) + small convolutional cells (kernels shared over <= 9 output positions, stride / "
-                 "padding, delays, linear reductions) + EXHAUSTIVE pre/post histories of length <= %d on 1x1 cells for every trainer x "
+                 "padding, delays, linear reductions) + GROUPS: one trainer object driving 2-3 cells on their own layers, the "
+                 "first registered without overrides, the others with keyword overrides of rates (mostly another sign mode "
+                 "than the trainer's defaults), time constants, delayed, trace_mode, batch_reduction, interp_tolerance, "
+                 "inplace; model and oracle use the hyperparameters in effect per cell + EXHAUSTIVE pre/post histories of length <= %d on 1x1 cells for every trainer x "
                  "sign mode x trace mode%s; non-trivial = >= 2 steps with at least one pre and one post spike; distinct by "
                  "full case text" % (ex_len, " (+ all length-3 histories for STDP, length <= 2 with a delay)" if quick
                                      else " (+ length <= 4 with a delay in both trainer modes)")),
@@ -585,13 +703,20 @@ def run(ctx):
         "traces_validated_against_impl": len(cases) - len(mismatches),
         "model_terms_evaluated": nterms,
         "exhaustive_cases": len(ex),
-        "trainer_distribution": dict(Counter(c["trainer"] for c in cases)),
-        "mode_distribution": dict(Counter(c["mode"] for c in cases)),
-        "delay_distribution": dict(Counter(("none" if c["kmax"] is None else "k<=%d" % c["kmax"]) + ("/delayed" if c["delayed"] else "/frozen") for c in cases)),
-        "offgrid_delay_cases": sum(1 for c in cases if c.get("delays") is not None and any(float(x) != int(x) for x in _flat(c["delays"]))),
-        "conn_distribution": dict(Counter(c["conn"] for c in cases)),
-        "reduction_distribution": dict(Counter(eff_reduction(c) for c in cases)),
-        "signal_distribution": dict(Counter("none" if c.get("signal") is None else ("per-sample" if isinstance(c["signal"][0], list) else "scalar") for c in cases)),
+        "trainer_distribution": dict(Counter(c["trainer"] for c in cells)),
+        "mode_distribution": dict(Counter(c["mode"] for c in cells)),
+        "delay_distribution": dict(Counter(("none" if c["kmax"] is None else "k<=%d" % c["kmax"]) + ("/delayed" if c["delayed"] else "/frozen") for c in cells)),
+        "offgrid_delay_cases": sum(1 for c in cells if c.get("delays") is not None and any(float(x) != int(x) for x in _flat(c["delays"]))),
+        "group_cases": len(groups), "group_cells": sum(len(g["cells"]) for g in groups),
+        "group_cells_with_overrides": sum(1 for g in groups for cc in g["cells"] if cc.get("override")),
+        "group_cells_sign_mode_differs_from_default": sum(
+            1 for g in groups for e in effective_cases(g)
+            if (e["hp"]["lr_post"] >= 0, e["hp"]["lr_pre"] >= 0) != (g["defaults"]["hp"]["lr_post"] >= 0, g["defaults"]["hp"]["lr_pre"] >= 0)),
+        "group_override_keys": dict(Counter(k for g in groups for cc in g["cells"] for k in
+                                            (list(cc.get("override", {}).get("hp", {})) + [x for x in cc.get("override", {}) if x != "hp"]))),
+        "conn_distribution": dict(Counter(c["conn"] for c in cells)),
+        "reduction_distribution": dict(Counter(eff_reduction(c) for c in cells)),
+        "signal_distribution": dict(Counter("none" if c.get("signal") is None else ("per-sample" if isinstance(c["signal"][0], list) else "scalar") for c in cells)),
         "impl_errors": sum(1 for r in impl if not r.get("ok")),
         "malformed_stream": dict(Counter("%s/%s" % (c.get("malformed"), "accepted" if r.get("ok") else "refused") for c, r in zip(cases, impl) if c.get("malformed"))),
     }
@@ -613,6 +738,22 @@ def minimise(case):
     best, detail = case, bad(case)
     if detail is None:
         return case, None
+    changed = True
+    while changed and best.get("kind") == "group":
+        changed = False
+        cands = []
+        if len(best["cells"]) > 1:
+            cands += [dict(best, cells=best["cells"][:j] + best["cells"][j + 1:]) for j in range(len(best["cells"]))]
+        if len(best["cells"][0]["pre"]) > 1:
+            cands.append(dict(best, cells=[dict(cc, pre=cc["pre"][:-1], post=cc["post"][:-1]) for cc in best["cells"]],
+                              signal=None if best.get("signal") is None else best["signal"][:-1]))
+        for c in cands:
+            d = bad(c)
+            if d is not None:
+                best, detail, changed = c, d, True
+                break
+    if best.get("kind") == "group":
+        return best, detail
     changed = True
     while changed:
         changed = False
